@@ -9,5 +9,5 @@ trap 'git -C /repo worktree remove --force $WT; rm -rf $WT' EXIT
 git -C $WT apply $S/patch.diff || { echo "patch does not apply"; exit 2; }
 for c in "$@"; do
   echo "== $(basename $S) vs $c"
-  VERIF_REPO=$WT $V/bin/vcheck $c ${TIER:-quick} 2>&1 | grep -E "VIOLATION|KNOWN|HARNESS|status=" | cut -c1-400 | head -8
+  VERIF_REPO=$WT $V/bin/vcheck $c ${TIER:-quick} 2>&1 | grep -E "VIOLATION|signature:|HARNESS|status=" | cut -c1-400 | head -12
 done
